@@ -3,7 +3,7 @@ import json
 import random
 import time
 
-from .. import codec, common, container, pyavro
+from .. import scopes, codec, common, container, pyavro
 
 PROP = "C15"
 THOROUGH_SEEDS = 2        # seeds per thorough run (bin/check)
@@ -41,6 +41,46 @@ def sessions(tier, seed):
             ops = [json.loads(json.dumps(alpha[c])) for c in seq] + [{"op": "into_inner"} if k % 2 == 0 else {"op": "drop"}]
             meta = [[container.T("user.key"), [1, 2, 3]]] if k % 5 == 0 else []
             cmds.append(container.writer_cmd(G, codec_name, approx, ops, meta=meta, cid=len(cmds)))
+    # fields presented out of schema order (they go through the pooled side buffers): a fitting value, and values that fail INSIDE an
+    # out-of-order field - before it produced a byte (a union no branch of which takes the value) or after (a nested record whose
+    # second field does not fit): neither may disturb what follows
+    ra = {"s": alpha["s"], "x": alpha["x"]}
+    rv = container.item_pres(G, container.item_value(5, "rr", 6))
+    rv["fs"] = [rv["fs"][2], rv["fs"][0], rv["fs"][1]]
+    ra["R"] = {"op": "serialize", "pres": rv}
+    gv = json.loads(json.dumps(rv))
+    gv["fs"][0][1] = {"p": "some", "x": {"p": "str", "v": container.T("wrong type")}}
+    ra["G"] = {"op": "serialize", "pres": gv}
+    for codec_name, approx in [("null", 30), ("deflate", 8)]:
+        for k, seq in enumerate(container.all_op_sequences(ra, 3)):
+            if not any(c in seq for c in "RG"):
+                continue
+            ops = [json.loads(json.dumps(ra[c])) for c in seq] + [{"op": "into_inner"} if k % 2 == 0 else {"op": "drop"}]
+            cmds.append(container.writer_cmd(G, codec_name, approx, ops, cid=len(cmds)))
+    G3 = scopes.flatten(scopes.rec("ns.Outer", [("a", scopes.prim("long")), ("r", scopes.rec("ns.In", [("x", scopes.prim("long")), ("y", scopes.prim("string"))])),
+                                                ("z", scopes.arr(scopes.prim("long")))]))["nodes"]
+
+    def v3(a, x, y, zs):
+        return {"t": "rec", "es": [{"t": "long", "v": pyavro.limbs(a)}, {"t": "rec", "es": [{"t": "long", "v": pyavro.limbs(x)}, {"t": "str", "v": container.T(y)}]},
+                                   {"t": "arr", "es": [{"t": "long", "v": pyavro.limbs(q)} for q in zs]}]}
+    s3 = container.item_pres(G3, v3(1, 2, "in order", [7]))
+    r3 = container.item_pres(G3, v3(3, -70000, "reordered", [8, 9]))
+    r3["fs"] = [r3["fs"][2], r3["fs"][1], r3["fs"][0]]
+    g3 = json.loads(json.dumps(r3))                       # r first ... its field y does not fit: x's bytes are already in the side buffer
+    g3["fs"] = [g3["fs"][1], g3["fs"][0], g3["fs"][2]]
+    g3["fs"][0][1]["fs"][1][1] = {"p": "i64", "v": pyavro.limbs(5)}
+    h3 = json.loads(json.dumps(r3))                       # z first: its second element does not fit
+    h3["fs"][0][1]["es"][1] = {"p": "str", "v": container.T("no")}
+    ra3 = {"s": {"op": "serialize", "pres": s3}, "R": {"op": "serialize", "pres": r3}, "G": {"op": "serialize", "pres": g3}, "H": {"op": "serialize", "pres": h3},
+           "x": {"op": "finish"}}
+    for codec_name, approx in [("null", 40), ("null", 0), ("deflate", 8)]:
+        for k, seq in enumerate(container.all_op_sequences(ra3, 3 if tier == "quick" else 4)):
+            if not any(c in seq for c in "GH"):
+                continue
+            ops = [json.loads(json.dumps(ra3[c])) for c in seq] + [{"op": "into_inner"} if k % 2 == 0 else {"op": "drop"}]
+            c = container.writer_cmd(G3, codec_name, approx, ops, cid=len(cmds))
+            c["_si"] = 4
+            cmds.append(c)
     # zero-byte items: schema "null" and a record without fields (blocks whose payload is empty)
     zschemas = [[{"k": "null", "lt": "none"}], [{"k": "record", "lt": "none", "name": container.T("Empty"), "fields": []}]]
     zalpha = [{"s": {"op": "serialize", "pres": {"p": "unit"}}, "f": {"op": "serialize", "pres": {"p": "i32", "v": [1, 0, 0, 0]}},
@@ -54,7 +94,7 @@ def sessions(tier, seed):
                 c = container.writer_cmd(zg, codec_name, approx, ops, cid=len(cmds))
                 c["_si"] = 2 + zi
                 cmds.append(c)
-    return [G] + zschemas, cmds
+    return [G] + zschemas + [G3], cmds
 
 
 def random_sessions(rng, n, G):
